@@ -159,7 +159,8 @@ theorem failMove_finv (sel : List Nat) (A : Nat) (abs0 : Map) (hselA : ∀ id, i
     exact h.finv.congr rfl rfl h.hids (Nat.le_refl _)
   · -- hint append
     cases hintFirst with
-    | true => exact h.finv.appendRec (Nat.le_refl _) r
+    | true =>
+      exact (h.finv.appendRec (Nat.le_refl _) r).congr rfl rfl (h.finv.appendRec (Nat.le_refl _) r).hids (Nat.le_refl _)
     | false => exact fNo.congr rfl rfl h.hids (Nat.le_refl _)
   · exact fNo
   · exact fNo
